@@ -203,4 +203,19 @@ PROPS = {
         "assumptions": COMMON_ASSUME,
         "outside": "key lengths strictly between the representatives, values near 512 MiB actually materialised, records exceeding a segment's capacity (rollover arithmetic with symbolic lengths not built)",
     },
+    "C05": {
+        "quick": [
+            {"harness": "H_C05_q", "cases": [c for c in range(72) if (c // 4) % 3 != 2], "scale": SC, "chunk": 3},
+        ],
+        "thorough": [
+            {"harness": "H_C05_r", "cases": list(range(72)), "scale": SC, "chunk": 4},
+            {"harness": "H_C05_t", "cases": list(range(72)), "scale": SC, "chunk": 4},
+            {"harness": "H_C05_crash", "cases": list(range(72)), "scale": SC, "chunk": 4},
+        ],
+        "covers": {"quick": ["C05.done", "C05.joined", "C05.compacted"]},
+        "bounds": {"quick": "hash layouts restricted to 3 shapes (one chain / two keys sharing a chain / all apart) with pairwise distinct full hashes (thorough: full-hash collisions allowed); 3 keys; 4 prefix shapes (dead record without delete marker / delete marker forcing older segments / three segments / picked current segment with room for a delete marker next to an unpicked older segment); thread T1 = Compact, thread T2 = 1 symbolic Put/Delete (thorough: followed by a Get racing with the rest of the compaction); schedule symbolic at every lock acquisition (the writer lands before/between/after any two records compaction processes); then full comparison, directory check, process death and recovery",
+                   "thorough": "2 writer operations; additionally a crash at any mutating FS call of the concurrent execution"},
+        "assumptions": COMMON_ASSUME + ["threads: context switches at lock acquisitions, yields, thread exit (sound given the lock discipline checked by C10's monitor)"],
+        "outside": "more than one concurrent writer thread, background-triggered compaction, more than 3 keys",
+    },
 }
